@@ -2,7 +2,7 @@ SPEC = {
     'id': 'C07',
     'properties_file': 'theories/Properties/C07.v',
     'properties_module': 'Properties.C07',
-    'gen_files': [],
+    'gen_files': ['theories/GenFacts/ContactsFacts.v'],
     'allowed_axioms': ['functional_extensionality_dep'],
     'streams': [{
         'name': 'lifecycle', 'pkg': '.', 'test': 'TestVerifC07',
@@ -21,6 +21,7 @@ SPEC = {
     'trusted_base': [
         'Coq 8.16.1 kernel; vm_compute for evaluating the model on cases',
         'axiom: Coq.Logic.FunctionalExtensionality.functional_extensionality_dep (standard library; states hold Coq functions as maps)',
+        'translator gen/contacts.go (state guards, format and own-key tests of the seven operations as a table)',
         'harness/root/zz_verif_c07_test.go, harness/root/zz_verif_meta_common_test.go (replicas over one in-memory IPFS node, '
         'silent pubsub; numbering of keys, seeds and metadata by first appearance)',
         'modelled, not verified: signing/sealing of events and their opening (C03), go-ipfs-log append/join, go-orbit-db replication '
